@@ -26,10 +26,12 @@ class Undecidable(AnalysisError):
 
 
 class Sym:
-    def __init__(self, text, length=None, truth=None, attrs=None, elems=None):
+    def __init__(self, text, length=None, truth=None, attrs=None, elems=None, struct=None):
         self.text, self.length, self.truth = text, length, truth
         self.attrs = attrs or {}
         self.elems = elems        # optional function index -> value
+        # how the value was obtained: ('index', base, key) | ('binop', op, left, right) | ('call', name, args, kwargs) | ('attr', base, name)
+        self.struct = struct
 
     def __repr__(self):
         return self.text
@@ -89,6 +91,10 @@ def show(v):
         return '[' + ', '.join(show(x) for x in v) + ']'
     if isinstance(v, dict):
         return '{' + ', '.join('%s: %s' % (show(k), show(x)) for k, x in v.items()) + '}'
+    if isinstance(v, slice):
+        return 'slice(%s, %s, %s)' % (show(v.start), show(v.stop), show(v.step))
+    if v is Ellipsis:
+        return '...'
     return repr(v)
 
 
@@ -99,6 +105,8 @@ def is_concrete(v):
         return all(is_concrete(x) for x in v)
     if isinstance(v, dict):
         return all(is_concrete(x) for x in v.values())
+    if isinstance(v, slice):
+        return all(is_concrete(x) for x in (v.start, v.stop, v.step))
     return True
 
 
@@ -117,8 +125,9 @@ class Interp:
     MAX_PATHS = 256
     MAX_STEPS = 20000
 
-    def __init__(self, prog, mod, enter=(), call_hook=None, attr_hook=None, known_functions=None):
+    def __init__(self, prog, mod, enter=(), call_hook=None, attr_hook=None, known_functions=None, symbolic_loops=False):
         self.prog, self.mod = prog, mod
+        self.symbolic_loops = symbolic_loops      # a loop over an iterable of unknown length is executed once with symbolic targets
         self.enter = set(enter)
         self.call_hook, self.attr_hook = call_hook, attr_hook
         self.known_functions = known_functions
@@ -259,8 +268,20 @@ class Interp:
             v = self.binop(st.op, cur, self.ev(st.value, env), st)
             if isinstance(st.target, ast.Name):
                 env.set(st.target.id, v)
+            elif isinstance(st.target, ast.Subscript):
+                base = self.ev(st.target.value, env)
+                key = self.ev_slice(st.target.slice, env)
+                if isinstance(base, (list, dict)) and is_concrete(key) and not isinstance(key, (list, dict)):
+                    base[key] = v
+                else:
+                    self.path.events.append(('augitem', base, key, type(st.op).__name__, self.ev(st.value, env)))
+            elif isinstance(st.target, ast.Attribute):
+                base = self.ev(st.target.value, env)
+                if isinstance(base, Sym):
+                    base.attrs[st.target.attr] = v
+                self.path.events.append(('setattr', show(base), st.target.attr, v))
             else:
-                self.path.events.append(('store', show(self.ev(_as_load(st.target.value), env)) if isinstance(st.target, (ast.Subscript, ast.Attribute)) else '?', ast.unparse(st.target), v))
+                raise Undecidable('augmented assignment to %s' % ast.unparse(st.target)[:40])
             return
         if isinstance(st, ast.Return):
             raise _Return(None if st.value is None else self.ev(st.value, env))
@@ -281,7 +302,22 @@ class Interp:
             self.block(st.body if t else st.orelse, env)
             return
         if isinstance(st, ast.For):
-            it = self.iterate(self.ev(st.iter, env), st.iter)
+            itv = self.ev(st.iter, env)
+            try:
+                it = self.iterate(itv, st.iter)
+            except Undecidable:
+                if not self.symbolic_loops:
+                    raise
+                # one symbolic iteration: every name of the target denotes "the value in an arbitrary iteration"
+                self.path.events.append(('loop', show(itv), ast.unparse(st.target)))
+                for nm in ast.walk(st.target):
+                    if isinstance(nm, ast.Name):
+                        env.set(nm.id, Sym(nm.id))
+                try:
+                    self.block(st.body, env)
+                except (_Break, _Continue):
+                    pass
+                return
             broke = False
             for x in it:
                 self.assign(st.target, x, env)
@@ -408,7 +444,7 @@ class Interp:
                 except (IndexError, TypeError):
                     raise Raised('IndexError')
                 return
-            self.path.events.append(('setitem', show(base), k, v))
+            self.path.events.append(('setitem', show(base), k, v, base))
             return
         raise Undecidable('assignment to %s' % ast.unparse(t)[:50])
 
@@ -439,15 +475,15 @@ class Interp:
                     k += base.length
             if base.elems is not None and isinstance(k, int):
                 return base.elems(k)
-            return Sym('%s[%s]' % (base.text, show(k) if not isinstance(k, tuple) else ', '.join(show(x) for x in k)))
+            return Sym('%s[%s]' % (base.text, show(k) if not isinstance(k, tuple) else ', '.join(show(x) for x in k)), struct=('index', base, k))
         if isinstance(base, (tuple, list, str)):
-            if isinstance(k, (int, slice)) and not isinstance(k, bool):
+            if isinstance(k, (int, slice)) and not isinstance(k, bool) and is_concrete(k):
                 try:
                     return base[k]
                 except IndexError:
                     raise Raised('IndexError')
-            if isinstance(k, Sym):
-                return Sym('%s[%s]' % (show(base), k.text))
+            if isinstance(k, (Sym, slice)):
+                return Sym('%s[%s]' % (show(base), show(k)), struct=('index', base, k))
             raise Raised('TypeError')
         if isinstance(base, dict):
             if is_concrete(k) and not isinstance(k, (list, dict)):
@@ -491,7 +527,7 @@ class Interp:
             return r * l
         sym = {ast.Add: '+', ast.Sub: '-', ast.Mult: '*', ast.Div: '/', ast.FloorDiv: '//', ast.Mod: '%', ast.Pow: '**', ast.MatMult: '@',
                ast.BitAnd: '&', ast.BitOr: '|', ast.BitXor: '^', ast.LShift: '<<', ast.RShift: '>>'}[type(op)]
-        return Sym('(%s %s %s)' % (show(l), sym, show(r)))
+        return Sym('(%s %s %s)' % (show(l), sym, show(r)), struct=('binop', sym, l, r))
 
     def compare(self, op, l, r):
         if isinstance(op, (ast.Is, ast.IsNot)):
@@ -708,8 +744,8 @@ class Interp:
                 for st in cl.body:
                     if isinstance(st, (ast.FunctionDef, ast.AsyncFunctionDef)) and st.name == attr:
                         return FuncRef('%s.%s' % (cl.name, attr), node=st, mod=self.mod, cls=cl)
-                return Sym('%s.%s' % (base.text, attr))
-            return Sym('%s.%s' % (base.text, attr))
+                return Sym('%s.%s' % (base.text, attr), struct=('attr', base, attr))
+            return Sym('%s.%s' % (base.text, attr), struct=('attr', base, attr))
         if isinstance(base, dict) and attr in ('pop', 'get', 'items', 'keys', 'values', 'setdefault', 'update', 'copy'):
             return _Method(base, attr)
         if isinstance(base, list) and attr in ('append', 'extend', 'index', 'pop', 'insert', 'copy', 'count', 'reverse', 'sort'):
@@ -748,7 +784,7 @@ class Interp:
                 bound = self.bind(f.node, args, kwargs, skip_first=False)
                 return self.call_function(f.node, bound, f.cls, f.env)
             self.path.events.append(('call', f.name, tuple(args), dict(kwargs)))
-            return Sym('%s(%s)' % (f.name, ', '.join([show(a) for a in args] + ['%s=%s' % (k, show(v)) for k, v in kwargs.items()])))
+            return Sym('%s(%s)' % (f.name, ', '.join([show(a) for a in args] + ['%s=%s' % (k, show(v)) for k, v in kwargs.items()])), struct=('call', f.name, tuple(args), dict(kwargs)))
         if isinstance(f, Sym):
             nm = f.text
             if self.call_hook is not None:
@@ -772,7 +808,7 @@ class Interp:
                     acc = self.apply(args[0], [acc, x], {}, node)
                 return acc
             self.path.events.append(('call', nm, tuple(args), dict(kwargs)))
-            return Sym('%s(%s)' % (nm, ', '.join([show(a) for a in args] + ['%s=%s' % (k, show(v)) for k, v in kwargs.items()])))
+            return Sym('%s(%s)' % (nm, ', '.join([show(a) for a in args] + ['%s=%s' % (k, show(v)) for k, v in kwargs.items()])), struct=('call', nm, tuple(args), dict(kwargs), f))
         raise Raised('TypeError')
 
 
@@ -899,7 +935,14 @@ def _b_len(it, args, kw):
 def _b_range(it, args, kw):
     if all(isinstance(a, int) for a in args):
         return range(*args)
-    raise Undecidable('range(%s)' % ', '.join(show(a) for a in args))
+    return Sym('range(%s)' % ', '.join(show(a) for a in args), struct=('call', 'range', tuple(args), {}))
+
+
+def _b_slice(it, args, kw):
+    a = list(args)
+    if len(a) == 1:
+        return slice(None, a[0], None)
+    return slice(*a)
 
 
 def _b_seq(kind):
@@ -928,7 +971,21 @@ def _b_enumerate(it, args, kw):
 
 
 def _b_zip(it, args, kw):
-    return [tuple(t) for t in zip(*[it.iterate(a, None) for a in args])]
+    # operands whose length is not known are taken to be as long as those whose length is known (the callers pass sequences of
+    # one length; zip would otherwise stop at the shortest)
+    known = []
+    for a in args:
+        try:
+            known.append(len(it.iterate(a, None)))
+        except Undecidable:
+            known.append(None)
+    if all(k is None for k in known):
+        raise Undecidable('zip of sequences of unknown length')
+    n = min(k for k in known if k is not None)
+    cols = []
+    for a, k in zip(args, known):
+        cols.append(it.iterate(a, None)[:n] if k is not None else [it.index(a, i, None) for i in range(n)])
+    return [tuple(t) for t in zip(*cols)]
 
 
 def _b_map(it, args, kw):
@@ -941,7 +998,7 @@ def _b_minmax(fn):
         vals = args if len(args) > 1 else it.iterate(args[0], None)
         if is_concrete(list(vals)) and not kw:
             return fn(vals)
-        return Sym('%s(%s)' % (fn.__name__, ', '.join(show(a) for a in args)))
+        return Sym('%s(%s)' % (fn.__name__, ', '.join(show(a) for a in args)), struct=('call', fn.__name__, tuple(args), dict(kw)))
     return f
 
 
@@ -988,8 +1045,40 @@ _OPERATOR = {'operator.mul': ast.Mult, 'operator.add': ast.Add, 'operator.sub': 
              'operator.pow': ast.Pow, 'operator.mod': ast.Mod}
 
 _BUILTIN_FUNCS = {
-    'len': _b_len, 'range': _b_range, 'tuple': _b_seq(tuple), 'list': _b_seq(list), 'dict': _b_dict, 'enumerate': _b_enumerate,
+    'len': _b_len, 'range': _b_range, 'slice': _b_slice, 'tuple': _b_seq(tuple), 'list': _b_seq(list), 'dict': _b_dict, 'enumerate': _b_enumerate,
     'zip': _b_zip, 'map': _b_map, 'min': _b_minmax(min), 'max': _b_minmax(max), 'isinstance': _b_isinstance, 'int': _b_conv(int),
     'float': _b_conv(float), 'str': _b_conv(str), 'bool': _b_conv(bool), 'sorted': _b_sorted, 'sum': _b_sum, 'callable': _b_callable,
     'abs': _b_conv(abs), 'reversed': lambda it, a, k: list(reversed(it.iterate(a[0], None))), 'set': _b_seq(tuple),
 }
+
+
+# ---- helpers for rules that inspect the structure of symbolic values ---------------------------------------------------------
+def factors(v, op='*'):
+    """operands of a (nested, any association) product / sum"""
+    if isinstance(v, Sym) and v.struct and v.struct[0] == 'binop' and v.struct[1] == op:
+        return factors(v.struct[2], op) + factors(v.struct[3], op)
+    return [v]
+
+
+def is_newaxis(v):
+    return v is None or (isinstance(v, Sym) and v.text in ('numpy.newaxis', 'np.newaxis', 'nuax', 'newaxis'))
+
+
+def is_full_slice(v):
+    return isinstance(v, slice) and v.start is None and v.stop is None and v.step in (None, 1)
+
+
+def call_of(v, name):
+    """(args, kwargs) when v is the value of a call of `name` (last dotted component), else None"""
+    if isinstance(v, Sym) and v.struct and v.struct[0] == 'call' and v.struct[1].split('.')[-1] == name:
+        return v.struct[2], v.struct[3]
+    return None
+
+
+def method_call(v, name):
+    """the receiver when v is `receiver.name(...)`, else None"""
+    if isinstance(v, Sym) and v.struct and v.struct[0] == 'call' and len(v.struct) > 4:
+        f = v.struct[4]
+        if isinstance(f, Sym) and f.struct and f.struct[0] == 'attr' and f.struct[2] == name:
+            return f.struct[1]
+    return None
